@@ -5,41 +5,55 @@ executable definition for that op and prints the model's result as one JSON line
 line numbers stay aligned with the input.
 -/
 import Driver.Notation
+import Driver.TreeIO
 
 open Lean Driver
 
 def allOps : List (String × Handler) :=
   notationOps
 
-def dispatch (line : String) : String :=
+/-- ops that read or extend the driver state (registered documents) -/
+def allStateOps : List (String × SHandler) :=
+  treeOps
+
+def derr (e : String) : String := (Json.mkObj [("driver_error", Json.str e)]).compress
+
+def dispatch (st : DState) (line : String) : DState × String :=
   match Json.parse line with
-  | .error e => (Json.mkObj [("driver_error", Json.str s!"parse: {e}")]).compress
+  | .error e => (st, derr s!"parse: {e}")
   | .ok j =>
     match j.getObjVal? "op" with
-    | .error e => (Json.mkObj [("driver_error", Json.str e)]).compress
+    | .error e => (st, derr e)
     | .ok opj =>
       match opj.getStr? with
-      | .error e => (Json.mkObj [("driver_error", Json.str e)]).compress
+      | .error e => (st, derr e)
       | .ok op =>
-        if op == "oracle" then "null" else
-        match allOps.lookup op with
-        | none => (Json.mkObj [("driver_error", Json.str s!"unknown op {op}")]).compress
-        | some h =>
-          match j.getObjVal? "a" with
-          | .error e => (Json.mkObj [("driver_error", Json.str e)]).compress
-          | .ok a =>
+        if op == "oracle" then (st, "null") else
+        match j.getObjVal? "a" with
+        | .error e => (st, derr e)
+        | .ok a =>
+          match allOps.lookup op with
+          | some h =>
             match h a with
-            | .ok r => r.compress
-            | .error e => (Json.mkObj [("driver_error", Json.str e)]).compress
+            | .ok r => (st, r.compress)
+            | .error e => (st, derr e)
+          | none =>
+            match allStateOps.lookup op with
+            | some h =>
+              match h st a with
+              | .ok (st', r) => (st', r.compress)
+              | .error e => (st, derr e)
+            | none => (st, derr s!"unknown op {op}")
 
-partial def loop (hin hout : IO.FS.Stream) : IO Unit := do
+partial def loop (hin hout : IO.FS.Stream) (st : DState) : IO Unit := do
   let line ← hin.getLine
   if line.isEmpty then return ()
-  hout.putStrLn (dispatch line)
-  loop hin hout
+  let (st', out) := dispatch st line
+  hout.putStrLn out
+  loop hin hout st'
 
 def main : IO Unit := do
   let hin ← IO.getStdin
   let hout ← IO.getStdout
-  loop hin hout
+  loop hin hout {}
   hout.flush
